@@ -174,9 +174,15 @@ func (fs LocalFileSystem) Create(ctx context.Context, name string, body io.ReadC
 	if err := checkConditionalMatches(fi, opts.IfMatch, opts.IfNoneMatch); err != nil {
 		return nil, false, err
 	}
+	if fi != nil && fi.IsDir {
+		return nil, false, NewHTTPError(http.StatusMethodNotAllowed, fmt.Errorf("webdav: cannot PUT to a collection"))
+	}
 
 	wc, err := os.Create(p)
-	if err != nil {
+	if os.IsNotExist(err) || errors.Is(err, syscall.ENOTDIR) {
+		// The parent collection doesn't exist
+		return nil, false, NewHTTPError(http.StatusConflict, stripPath(err))
+	} else if err != nil {
 		return nil, false, errFromOS(err)
 	}
 	defer wc.Close()
